@@ -4,6 +4,8 @@ import (
 	"bytes"
 	"fmt"
 	"os"
+	"path"
+	"strings"
 	"time"
 
 	"verif/checks"
@@ -11,6 +13,7 @@ import (
 	"verif/ref/reflzma"
 	"verif/ref/refxz"
 	"verif/sim"
+	"verif/sim/simos"
 )
 
 var c15Names = []string{"-", "-k", "data.bin", "my file.txt", "report", "a b c.log", "x", "notes.md", "IMG 0001.raw", "weird.name.here", "Z", "-dash.txt", "--double", "été.txt", "tab\tname",
@@ -71,6 +74,11 @@ func genC15(r *sim.Rng, tier string, idx int) *GCase {
 			}
 			if r.Chance(1, 6) {
 				n = fmt.Sprintf("f%d.dat", r.Intn(1000))
+			}
+			if r.Chance(1, 40) {
+				// a name near the file system's limit of 255 bytes: with the suffix
+				// of the result it may or may not still fit
+				n = strings.Repeat(string(rune('a'+r.Intn(26))), r.Range(228, 252)) + ".d"
 			}
 			if !used[n] {
 				used[n] = true
@@ -364,6 +372,7 @@ func runC15(c *GCase, x *sim.Ctx) *sim.Violation {
 			usesStdout      bool
 			mayFail         []int
 			free            map[string]bool // names whose fate is not constrained (stale temporary files)
+			tempLong        []int           // operands whose target name fits NAME_MAX but whose temporary name does not
 		}
 		stdin0 := w.Stdin
 		expect := func(forceFail map[int]bool) *expectation {
@@ -372,7 +381,7 @@ func runC15(c *GCase, x *sim.Ctx) *sim.Violation {
 			anyFail := false
 			var wantStdoutPlain []byte
 			stdoutFormat := ""
-			var mayFail []int
+			var mayFail, tempLong []int
 			free := map[string]bool{}
 			// a "-" operand (and an invocation without operands) is standard input
 			// written to standard output; other operands stay independent of it
@@ -401,6 +410,12 @@ func runC15(c *GCase, x *sim.Ctx) *sim.Violation {
 						e = Expect{Operand: op, Compress: e.Compress, Fail: true, Why: "temporary name taken"}
 					}
 				}
+				if !e.Fail && !e.ToStdout && tempNameTooLong(e) {
+					tempLong = append(tempLong, oi)
+					if forceFail[oi] {
+						e = Expect{Operand: op, Compress: e.Compress, Fail: true, Why: "temporary name too long"}
+					}
+				}
 				exps = append(exps, e)
 				var out []byte
 				if !e.Fail && !e.ToStdout {
@@ -417,7 +432,7 @@ func runC15(c *GCase, x *sim.Ctx) *sim.Violation {
 					stdoutFormat = e.Format
 				}
 			}
-			return &expectation{exps, model, anyFail, wantStdoutPlain, stdoutFormat, usesStdout, mayFail, free}
+			return &expectation{exps, model, anyFail, wantStdoutPlain, stdoutFormat, usesStdout, mayFail, free, tempLong}
 		}
 		base := expect(nil)
 		w.Stdin = append([]byte(nil), w.Stdin...)
@@ -512,6 +527,29 @@ func runC15(c *GCase, x *sim.Ctx) *sim.Violation {
 					break
 				}
 			}
+			if !ok && len(base.tempLong) > 0 {
+				// does the run look exactly as if the operands whose *temporary* name
+				// exceeds NAME_MAX (the name of the result does not) had been
+				// unprocessable? Then it is that finding and nothing else.
+				hit := false
+				for mask := 0; mask < 1<<len(base.mayFail) && len(base.mayFail) <= 4 && !hit; mask++ {
+					ff := map[int]bool{}
+					for _, oi := range base.tempLong {
+						ff[oi] = true
+					}
+					for b, oi := range base.mayFail {
+						if mask>>b&1 == 1 {
+							ff[oi] = true
+						}
+					}
+					hit = judge(expect(ff)) == nil
+				}
+				if hit {
+					e := base.exps[base.tempLong[0]]
+					return sim.Viol("temp-name-too-long", "temporary-name-over-NAME_MAX", "run %d gxz %q: %q (%d bytes) cannot be processed although the result %q (%d bytes) is a legal name: the temporary name gxz writes to first is %d bytes long",
+						ri, args, trunc(e.Operand), len(e.Operand), trunc(e.Target), len(path.Base(e.Target)), len(path.Base(e.Target))+len(tempExt(e)))
+				}
+			}
 			if !ok {
 				return viol
 			}
@@ -552,6 +590,26 @@ func modelStdin(v *Inv, stdin []byte, tty bool) Expect {
 		e.Fail, e.Why = true, "bad standard input"
 	}
 	return e
+}
+
+func tempExt(e Expect) string {
+	if e.Compress {
+		return ".compress"
+	}
+	return ".decompress"
+}
+
+// tempNameTooLong: the result's name fits the file system's limit, the name
+// gxz gives its temporary output (result + ".compress"/".decompress") does not.
+func tempNameTooLong(e Expect) bool {
+	return e.Target != "" && len(path.Base(e.Target))+len(tempExt(e)) > simos.NameMax
+}
+
+func trunc(s string) string {
+	if len(s) > 24 {
+		return s[:12] + "..." + s[len(s)-9:]
+	}
+	return s
 }
 
 // staleTempFor returns the name of an existing file that occupies the name
